@@ -7,6 +7,7 @@ import (
 	"bytes"
 	"fmt"
 	"net/http"
+	"os"
 	"regexp"
 	"runtime/debug"
 	"strings"
@@ -14,6 +15,15 @@ import (
 )
 
 var seq atomic.Int64
+
+// RepoPrefix is the directory the library under test was built from ("/repo/", or the scratch worktree given
+// to ./check through VERIF_REPO_DIR); stack frames under it are attributed to the library.
+var RepoPrefix = func() string {
+	if d := os.Getenv("VERIF_REPO_DIR"); d != "" {
+		return strings.TrimRight(d, "/") + "/"
+	}
+	return "/repo/"
+}()
 
 // Seq returns the next value of the single monotonic event counter that stamps
 // storage calls and HTTP response events alike.
@@ -104,7 +114,7 @@ func classify(val, stack string) *PanicInfo {
 			continue
 		}
 		// standard library / dependency frames: keep walking until we reach repo or harness code
-		if strings.HasPrefix(file, "/repo/") {
+		if strings.HasPrefix(file, RepoPrefix) {
 			pi.InRepo = true
 			pi.Frame = file + ":" + m[3] + " " + fn
 			return pi
@@ -186,7 +196,7 @@ func ParseRaceLog(log string) []RaceReport {
 				if first == "" {
 					first = m[1]
 				}
-				if strings.HasPrefix(m[2], "/repo/") {
+				if strings.HasPrefix(m[2], RepoPrefix) {
 					rr.Frames[i] = m[1]
 					rr.TouchRepo = true
 					break
